@@ -12,10 +12,16 @@
  * A run that deadlocks (shim) has status 1.
  *
  * Script (blank separated):  n<k>  new pool with k workers (first token)
- *   a<k> assign k fresh tasks    w wait    l<m> set_concurrency_limit(m)    f free
- *   s / S set strict_async true / false      N<k> assign k tasks each of which assigns
- *   one further task from inside the worker.
- *
+ *   a<k> assign k fresh tasks    w wait    l<m> set_concurrency_limit(m)    f free (after a wait)
+ *   s / S set strict_async true / false
+ *   nested assign (a task body calls mps_thread_pool_assign on the same pool after its yield):
+ *   N<k> assign k tasks each of which hands over one further task
+ *   B<k> assign one task that hands over k further tasks (breadth)
+ *   D<k> assign one task that hands over a task that hands over ... (chain of k nested levels, k <= 3)
+ *   F    free on a pool that may be busy (no wait before): tasks still queued are lost (never run),
+ *        nothing runs twice, every worker is joined, free does not block.
+ * The body of every task is: event start; count; sched_yield; [event assign c; assign; event assign_ret]*;
+ * event end.
  * usage: c06_pool --script "n2 a2 w f" (--dfs B [--free-switch] [--shard i/n] | --random N | --pct N [--depth d]
  *                  | --replay csv | --follow tids) [--seed S] [--spurious K] [--max-runs N] [--quiet]
  */
@@ -31,26 +37,36 @@ static mps_thread_pool *pool; static mps_context *fake;
 static const char *script = "n2 a1 w f";
 static int quiet = 0;
 
-typedef struct { int id; int child; } targ;
+#define MAXCHILD 4
+typedef struct { int id; int nchild; int child[MAXCHILD]; } targ;
 static targ targs[MAXTASK];
 
 static void *task_body (void *p)
 {
-  targ *a = (targ *) p;
+  targ *a = (targ *) p; int i;
   vf_event ("start", a->id);
   if (++count_[a->id] > 1) vf_fail ("task-executed-twice");
   sched_yield ();
-  if (a->child >= 0) {
-    vf_event ("assign", a->child);
-    handed[a->child] = 1;
-    mps_thread_pool_assign (fake, pool, task_body, &targs[a->child]);
+  for (i = 0; i < a->nchild; i++) {
+    int c = a->child[i];
+    vf_event ("assign", c);
+    handed[c] = 1;
+    mps_thread_pool_assign (fake, pool, task_body, &targs[c]);
     vf_event ("assign_ret", 0);
   }
   done_[a->id] = 1;
   vf_event ("end", a->id);
   return NULL;
 }
-static int new_task (int child) { int t = n_tasks++; if (t >= MAXTASK) { fprintf (stderr, "too many tasks\n"); exit (2); } targs[t].id = t; targs[t].child = child; return t; }
+static int new_task (void) { int t = n_tasks++; if (t >= MAXTASK) { fprintf (stderr, "too many tasks\n"); exit (2); } targs[t].id = t; targs[t].nchild = 0; return t; }
+static void add_child (int t, int c) { if (targs[t].nchild >= MAXCHILD) { fprintf (stderr, "too many children\n"); exit (2); } targs[t].child[targs[t].nchild++] = c; }
+static void client_assign (int t)
+{
+  vf_event ("assign", t);
+  handed[t] = 1;
+  mps_thread_pool_assign (fake, pool, task_body, &targs[t]);
+  vf_event ("assign_ret", 0);
+}
 
 static int scenario (void *unused)
 {
@@ -71,16 +87,17 @@ static int scenario (void *unused)
         break;
       case 's': vf_event ("strict", 1); mps_thread_pool_set_strict_async (pool, true); break;
       case 'S': vf_event ("strict", 0); mps_thread_pool_set_strict_async (pool, false); break;
-      case 'a': case 'N':
-        for (i = 0; i < k; i++) {
-          int c = -1, t;
-          if (tok[0] == 'N') c = new_task (-1);
-          t = new_task (c);
-          vf_event ("assign", t);
-          handed[t] = 1;
-          mps_thread_pool_assign (fake, pool, task_body, &targs[t]);
-          vf_event ("assign_ret", 0);
-        }
+      case 'a':
+        for (i = 0; i < k; i++) client_assign (new_task ());
+        break;
+      case 'N':
+        for (i = 0; i < k; i++) { int c = new_task (), t = new_task (); add_child (t, c); client_assign (t); }
+        break;
+      case 'B':
+        { int t = new_task (); for (i = 0; i < k; i++) add_child (t, new_task ()); client_assign (t); }
+        break;
+      case 'D':
+        { int t = new_task (), cur = t; for (i = 0; i < k; i++) { int c = new_task (); add_child (cur, c); cur = c; } client_assign (t); }
         break;
       case 'w':
         vf_event ("wait", 0);
@@ -103,6 +120,15 @@ static int scenario (void *unused)
         pool = NULL;
         if (vf_sched_unfinished () != 0) vf_fail ("free:worker-not-joined");
         for (i = 0; i < n_tasks; i++) if (handed[i] && count_[i] != 1) vf_fail ("free:task-lost");
+        break;
+      case 'F':
+        vf_event ("free", 0);
+        mps_thread_pool_free (fake, pool);
+        vf_event ("free_ret", 0);
+        pool = NULL;
+        if (vf_sched_unfinished () != 0) vf_fail ("free:worker-not-joined");
+        for (i = 0; i < n_tasks; i++) if (count_[i] > 1) vf_fail ("free:task-executed-twice");
+        for (i = 0; i < n_tasks; i++) if (count_[i] == 1 && !done_[i]) vf_fail ("free:task-unfinished-after-join");
         break;
       default: fprintf (stderr, "bad token %s\n", tok); exit (2);
     }
